@@ -100,6 +100,11 @@ CLAIMED = {
          "The input space is a TLA+ model (343 single mutations: numeric fields x boundary values, removal/duplication of packet types, id list edits, wrong hashes, wrong-size recovery data, x index/volumes/all) with a truth-layer classification of which mutants still describe a valid set; the reference writers apply each mutation and re-checksum everything consistently so that only semantic validation can reject it; singles with data intact / the mutated file missing, plus seeded pairs, run through the real Verify and Repair in batch worker processes (each case announced, RLIMIT_AS 3 GiB, per-case time limit, solo re-run of a case that kills its worker); TLC judges every event: no panic / fatal error / hang, RSS growth within base + 64 x (bytes present + declared slice size), every file written matches the archive's own declared MD5 and length, nothing else modified, valid mutants verify clean and repair.",
          "Memory measured by RSS growth per case; OOM within the allowance of a huge declared slice size is not counted; pairs are sampled.",
          "DESIGN.md section 5 C19"),
+ "C18": ("model_checking",
+         "IOFaults.tla step-language model of Create/Verify/Repair with fault actions checked by TLC; injecting file system through the build-tagged hook fails every I/O call index x kind (and pairs) on real directories; TLC validates each recorded call log against the step language and judges the four clauses",
+         "Each operation is specified as a sequence of I/O calls with fault actions (error without effect; write error after a partial write) and TLC checks for every shape and fault that the failure is reported, that exactly the writes before it completed and that only a failing write can tear a file. The real par1/par2 Create, Verify and Repair are driven through the exported hook with a file system that fails exactly one call: every call index of the fault-free run, both kinds for writes, on several archive states per format, plus seeded pairs (fault, faulted rerun, clean rerun). TLC validates every recorded call log as the operation's step language cut at the fault (the binding) and judges: error returned, failed write not listed as repaired, nothing but the path being written or completed exact writes changed, clean rerun equals the fault-free run whenever the torn file leaves the damage within capacity.",
+         "EIO as the injected error; shapes' counts measured on the fault-free run of the same state.",
+         "DESIGN.md section 5 C18"),
 }
 
 NOT_YET = "check under construction in this round; not claimed until it runs green on the unchanged tree"
